@@ -63,6 +63,13 @@ MODES = {'rep2': ['--repeat', '2'], 'j2rep2': ['-j2', '--repeat', '2'], 'rep3v':
          'j2t': ['-j2', '-t', 'q1|q2']}
 
 
+def _o_filter(case):
+    return case[0] in ('A1B2c', 'N1B2C1') and case[4] in ('seq', 'j2', 'rep2') and not case[5]
+
+
+ENV_PASSES = [{'name': 'python -O', 'argv': ['-O'], 'env': {}, 'filter': _o_filter}]
+
+
 def _items(tier):
     """(scripts placements, layer faults, bad modules) triples."""
     B = 1 if tier == 'quick' else 2
